@@ -891,7 +891,7 @@ func TestC41(t *testing.T) {
 		"offsets ≥ 0 (the planner never pushes a negative offset down), every ∈ {250ms … 90m}, period = every; for tied min/max any tied row's time is accepted")
 	r.Trust("storage.Engine + v1/services/storage.Store + meta client on inmem KV assembled in-process as storage/flux/table_test.go does; background compactions, retention and precreator services off")
 
-	nQueries := r.N(1500, 60000)
+	nQueries := r.N(1500, 20000)
 	perEnv := r.N(125, 400)
 	ctx := context.Background()
 	done := 0
@@ -1102,7 +1102,27 @@ func TestC41(t *testing.T) {
 			}
 			r.Case(fmt.Sprint(ds.describe(), sp), nonTrivial)
 			if r.WantSample() && nonTrivial && done%211 == 3 {
-				r.Sample(map[string]any{"spec": sp, "dataset": ds.describe(), "series_in_bounds": len(order)})
+				smp := map[string]any{"spec": sp, "dataset": ds.describe(), "series_in_bounds": len(order)}
+				if len(order) > 0 {
+					rw := raw[order[0]]
+					var ws []string
+					for i, w := range c41Windows(rw.pts, sp, sp.CreateEmpty) {
+						if i >= 4 {
+							ws = append(ws, "…")
+							break
+						}
+						if w.empty {
+							ws = append(ws, fmt.Sprintf("[%d,%d) empty", w.cs, w.ce))
+						} else {
+							ws = append(ws, fmt.Sprintf("[%d,%d) %d raw rows -> %s", w.cs, w.ce, w.row.N, w.row.V))
+						}
+					}
+					smp["first_series"] = order[0]
+					smp["first_series_raw_rows"] = len(rw.pts)
+					smp["first_series_tables"] = len(got[order[0]])
+					smp["first_series_expected_windows_head"] = ws
+				}
+				r.Sample(smp)
 			}
 		}
 		env.Close()
